@@ -235,3 +235,96 @@ func LockWaits() int {
 	defer mu.Unlock()
 	return lockWaits
 }
+
+// Pool replaces sync.Pool. Which pooled object a Get returns - or whether it
+// returns a fresh one although objects are pooled (the real pool is per-P and
+// is emptied by the garbage collector) - is a source of nondeterminism the
+// code under test can depend on through stale state in a reused object. In
+// controlled mode the choice is a pure function of (run seed, ordinal of the
+// Get); every pool is emptied when a run starts, so a run does not depend on
+// what the worker process executed before it.
+type Pool struct {
+	New   func() any
+	real  sync.Pool
+	items []any
+	reg   bool
+}
+
+var (
+	pools   []*Pool
+	poolCtr uint64
+	runSeed uint64
+)
+
+func poolMix(a, b uint64) uint64 {
+	x := a ^ (b+0x9e3779b97f4a7c15)*0xbf58476d1ce4e5b9
+	x ^= x >> 30
+	x *= 0xbf58476d1ce4e5b9
+	x ^= x >> 27
+	x *= 0x94d049bb133111eb
+	x ^= x >> 31
+	return x
+}
+
+// resetPools is called when a run starts.
+func resetPools(seed uint64) {
+	for _, p := range pools {
+		for i := range p.items {
+			p.items[i] = nil
+		}
+		p.items = p.items[:0]
+	}
+	poolCtr = 0
+	runSeed = seed
+}
+
+func (p *Pool) Get() any {
+	if freeMode.Load() {
+		if v := p.real.Get(); v != nil {
+			return v
+		}
+		if p.New != nil {
+			return p.New()
+		}
+		return nil
+	}
+	mu.Lock()
+	if !p.reg {
+		p.reg = true
+		pools = append(pools, p)
+	}
+	poolCtr++
+	h := poolMix(runSeed, poolCtr)
+	var v any
+	if n := len(p.items); n > 0 && h%8 != 0 {
+		i := int((h >> 8) % uint64(n))
+		v = p.items[i]
+		p.items[i] = p.items[n-1]
+		p.items[n-1] = nil
+		p.items = p.items[:n-1]
+	}
+	mu.Unlock()
+	if v == nil && p.New != nil {
+		v = p.New()
+	}
+	return v
+}
+
+func (p *Pool) Put(x any) {
+	if x == nil {
+		return
+	}
+	if freeMode.Load() {
+		p.real.Put(x)
+		return
+	}
+	mu.Lock()
+	if !p.reg {
+		p.reg = true
+		pools = append(pools, p)
+	}
+	if len(p.items) < 64 {
+		p.items = append(p.items, x)
+	}
+	mu.Unlock()
+}
